@@ -34,6 +34,7 @@ func run(c *fw.Ctx) {
 	g.valid()
 	g.placements()
 	g.truncation()
+	g.prologs()
 	g.corrupt()
 	g.mutations()
 	g.headers()
@@ -695,6 +696,40 @@ func (g *gen) truncation() {
 					runCase(g.c, cs)
 				}
 			}
+		}
+	}
+}
+
+// prologs: a valid answer behind every kind of XML declaration (encodings a
+// reader may or may not know, versions, standalone), document type
+// declaration, processing instruction, comment and byte-order mark. Whether
+// the client can read a declared encoding is left open; it must return.
+func (g *gen) prologs() {
+	for mi := range methods {
+		m := &methods[mi]
+		if !m.multistatus() {
+			continue
+		}
+		r := g.c.Rand("prolog/"+m.Name, 0)
+		d := cleanDoc(m, r, 1)
+		if len(d.Res) > 2 {
+			d.Res = d.Res[:2]
+		}
+		full := render(d, nil)
+		for pi, pl := range xmltree.Prologs {
+			_, mine := g.next()
+			if !mine {
+				continue
+			}
+			cs := g.newCase(m, "prolog", "multistatus", 207)
+			cs.Header = [][2]string{{"Content-Type", xmlType(pi)}}
+			cs.setBody(append([]byte(pl), full...))
+			cs.Exp = Expect{Verdict: "any"}
+			cs.Class = "207 + multistatus behind an unusual prolog"
+			cs.Family = "prolog"
+			cs.DKey = fmt.Sprintf("%s|%s|prolog%d", m.Name, cs.Class, pi)
+			g.c.Observe("prologs", "multistatus behind a prolog", 1)
+			runCase(g.c, cs)
 		}
 	}
 }
